@@ -348,6 +348,11 @@ func (c *Ctx) ruleR09c(rule string) {
 	parts := concatParts(compile.Call.Args[0])
 	okShape := false
 	var exprParam ssa.Value
+	for _, pt := range parts {
+		if pp, isParam := pt.(*ssa.Parameter); isParam {
+			exprParam = pp
+		}
+	}
 	if len(parts) == 3 {
 		pre, isPre := constString(parts[0])
 		suf, isSuf := constString(parts[2])
